@@ -327,6 +327,49 @@ where
     }
 }
 
+/// `parse_recon_document` fed from a source that returns the document in the given pieces, one per read.
+fn read_document(bytes: &[u8], cuts: &[usize]) -> Result<Vec<swimos_model::Item>, String> {
+    use std::future::Future;
+    use std::pin::Pin;
+    use std::task::{Context, Poll, Waker};
+    struct Pieces {
+        pieces: Vec<Vec<u8>>,
+        next: usize,
+        offset: usize,
+    }
+    impl tokio::io::AsyncRead for Pieces {
+        fn poll_read(mut self: Pin<&mut Self>, _cx: &mut Context<'_>, buf: &mut tokio::io::ReadBuf<'_>) -> Poll<std::io::Result<()>> {
+            let me = &mut *self;
+            if me.next < me.pieces.len() {
+                let piece = &me.pieces[me.next][me.offset..];
+                let n = piece.len().min(buf.remaining());
+                buf.put_slice(&piece[..n]);
+                me.offset += n;
+                if me.offset == me.pieces[me.next].len() {
+                    me.next += 1;
+                    me.offset = 0;
+                }
+            }
+            Poll::Ready(Ok(()))
+        }
+    }
+    let pieces: Vec<Vec<u8>> = chunks_of(bytes, cuts).into_iter().map(|c| c.to_vec()).filter(|c| !c.is_empty()).collect();
+    let src = Pieces { pieces, next: 0, offset: 0 };
+    let fut = swimos_recon::parser::parse_recon_document(src, false);
+    let mut fut = std::pin::pin!(fut);
+    let mut cx = Context::from_waker(Waker::noop());
+    for _ in 0..1_000_000 {
+        if let Poll::Ready(r) = fut.as_mut().poll(&mut cx) {
+            return r.map_err(|e| err_class_any(&e));
+        }
+    }
+    Err("never completed".into())
+}
+
+fn err_class_any(e: &swimos_recon::parser::AsyncParseError) -> String {
+    format!("{e:?}").chars().take(60).collect()
+}
+
 // ------------------------------------------------------------------------------------------------
 // Parts
 
@@ -462,6 +505,86 @@ pub fn run(s: &mut Session) {
     ); }
 
     let cases = s.args.budget(8_000, 400_000);
+    // The document reader (`parse_recon_document`) has its own read / parse / carry-over loop.
+    let cases = s.args.budget(3_000, 150_000);
+    if crate::want(s, "document-chunks") {
+        s.part(
+            "document-chunks",
+            "a Recon document (1-6 generated items with non-ASCII text, separated by commas / newlines) read by parse_recon_document from a source that delivers it in one read, at every single cut (documents up to 400 bytes; longer: 120 sampled cuts, always including every cut inside a multi-byte character) and in 6 random multi-cut runs: the items equal those of the one-read run and of the one-shot parser on `{document}`; non-trivial when the document holds a multi-byte character; distinct by document",
+            false,
+            cases,
+            |_i, rng, out| {
+                let n = rng.range(1, 6);
+                let mut doc = String::new();
+                for i in 0..n {
+                    if i > 0 {
+                        doc.push_str(*rng.pick(&[",", ",\n", "\n", " , ", ";\n"]));
+                    }
+                    let (text, _) = gen_text(rng, 0);
+                    doc.push_str(&text);
+                }
+                out.sig(&doc);
+                let bytes = doc.as_bytes();
+                out.nontrivial = !doc.is_ascii();
+                let reference = read_document(bytes, &[]);
+                // the one-shot parser on the same text as a record body
+                let one_shot = parse_value(&format!("{{{doc}}}")).ok().map(|v| match v {
+                    Value::Record(_, items) => format!("{items:?}"),
+                    other => format!("{other:?}"),
+                });
+                out.events += 1;
+                if let (Ok(items), Some(expect)) = (&reference, &one_shot) {
+                    if format!("{items:?}") != *expect {
+                        out.violation("C09", "document/one-read-differs-from-one-shot-parser", "parse_recon_document on the whole document gives other items than the one-shot parser gives for `{document}`", json!({"document": clip(&doc)}));
+                        return;
+                    }
+                }
+                let mut cuts: Vec<usize> = if bytes.len() <= 400 { (1..bytes.len()).collect() } else { (0..120).map(|_| 1 + rng.usize_below(bytes.len() - 1)).collect() };
+                cuts.extend((1..bytes.len()).filter(|i| !doc.is_char_boundary(*i)).take(600));
+                cuts.sort();
+                cuts.dedup();
+                let show = |r: &Result<Vec<swimos_model::Item>, String>| match r {
+                    Ok(items) => format!("Ok({items:?})"),
+                    Err(e) => format!("Err({e})"),
+                };
+                let same = |a: &Result<Vec<swimos_model::Item>, String>, b: &Result<Vec<swimos_model::Item>, String>| match (a, b) {
+                    (Ok(x), Ok(y)) => format!("{x:?}") == format!("{y:?}"),
+                    (Err(_), Err(_)) => true,
+                    _ => false,
+                };
+                for c in cuts {
+                    out.events += 1;
+                    let got = read_document(bytes, &[c]);
+                    if !same(&got, &reference) {
+                        let class = if doc.is_char_boundary(c) { "at-character-boundary" } else { "inside-multi-byte-character" };
+                        out.violation(
+                            "C09",
+                            format!("document/chunking/{class}/{}", match (&reference, &got) { (Ok(_), Ok(_)) => "different-items", (Ok(_), Err(_)) => "rejected-when-cut", (Err(_), Ok(_)) => "accepted-when-cut", _ => "other" }),
+                            "parse_recon_document gives a different result when the source delivers the document in two reads",
+                            json!({"document": clip(&doc), "cut": c, "one_read": clip(&show(&reference)), "two_reads": clip(&show(&got))}),
+                        );
+                        return;
+                    }
+                }
+                for _ in 0..6 {
+                    if bytes.len() < 3 {
+                        break;
+                    }
+                    let k = rng.range(2, 8) as usize;
+                    let mut cs: Vec<usize> = (0..k).map(|_| 1 + rng.usize_below(bytes.len() - 1)).collect();
+                    cs.sort();
+                    cs.dedup();
+                    out.events += 1;
+                    let got = read_document(bytes, &cs);
+                    if !same(&got, &reference) {
+                        out.violation("C09", "document/chunking/multi-cut", "parse_recon_document gives a different result when the source delivers the document in several reads", json!({"document": clip(&doc), "cuts": cs, "one_read": clip(&show(&reference)), "chunked": clip(&show(&got))}));
+                        return;
+                    }
+                }
+            },
+        );
+    }
+
     if crate::want(s, "bytes-robust") { s.part(
         "bytes-robust",
         "byte-mutated texts (bit flips, stray UTF-8 lead/continuation bytes, truncation): valid UTF-8 goes through the chunking oracle; otherwise both decoders are fed the bytes whole and in random chunks: no panic, bounded decode calls, the framed decoder delivers exactly one result per frame and then decodes a following well-formed frame correctly; non-trivial when the bytes are not valid UTF-8; distinct by bytes",
